@@ -10,7 +10,9 @@ with open(os.path.join(VERIF, "lean", "obligations.json")) as f:
 
 NOTE = ("Trusted: Lean 4.33 kernel; axioms propext/Classical.choice/Quot.sound only; the hand-written Lean model and spec "
         "executor; the correspondence check (harness canonicalisation, compiled driver) and its boundedness (agreement is "
-        "established on the explored inputs only); CPython semantics; integer cost vectors; canonical driver for online schedules.")
+        "established on the explored inputs only); CPython semantics; integer cost vectors; canonical driver for online schedules. "
+        "Where a source-level tie is listed: the translator harness/py2lean.py (rules in its docstring; validated per run "
+        "against the real functions by harness/genval.py) instead of the hand-written model of those functions.")
 
 TEXT = {
     "C01": "Every explored real stream (all classes, all passes) is run through the Lean spec executor, which checks every "
@@ -45,7 +47,7 @@ TEXT = {
            "depth, RAM count, DISK accesses compared with (total - top-a) of the Lean model's weights; allocate_snapshots "
            "compared with the model.",
     "C15": "Seeded multi-object interleaved histories on the real code; each object's stream compared with its history-free "
-           "stream (and, thorough, with a fresh interpreter).",
+           "stream (and, thorough, with a fresh interpreter); process histories against the Lean process model.",
     "C16": "Tabulated planner (path forced) vs memoised planner on the real code, cell by cell and stream by stream, and both "
            "against the Lean models of both.",
     "C17": "Outcome class (construct / first-next / later / complete) of every configuration in the valid boxes and in the box "
@@ -55,6 +57,10 @@ TEXT = {
     "C19": "PeriodicDiskRevolve DISK write/read positions and per-segment step counts for all n <= 5m+3 against the period from "
            "the Lean model of the closed form; the formula compared value by value.",
 }
+
+
+with open(os.path.join(VERIF, "lean", "CkptGen", "gen_obligations.json")) as _f:
+    GEN = json.load(_f)
 
 
 def main():
@@ -68,6 +74,11 @@ def main():
             text += " Machine-checked in Lean (re-checked on every run): " + ", ".join(t.split(".")[-1] for t in thms) + "."
         if spec.get("note"):
             text += " " + spec["note"]
+        gen = [(fn, g) for fn, g in GEN.items() if prop in g.get("properties", [])]
+        if gen:
+            text += (" Source-level tie (the Lean text regenerated from the current Python source by harness/py2lean.py is proved "
+                     "equal to the model, re-checked on every run): " +
+                     "; ".join("%s [%s]" % (fn, ", ".join(t.split(".")[-1] for t in g["theorems"][:3])) for fn, g in gen) + ".")
         checks.append({
             "property_id": prop,
             "quick_cmd": f"./check {prop} --tier quick",
